@@ -23,6 +23,10 @@ CLAIMS.update({
  "C16": ("proof", "C16.* contract theorems per mutator for all values and all lawful entropy sources; S4: the contract predicates evaluated on the real mutators' results (boundaries exhaustively) and exact agreement with the model in fuzzer-bytes mode.", "§6 C16", "Lean theorems + S4 correspondence"),
  "C18": ("proof", "C18.arb_lawful: the exact port of arbitrary::Unstructured satisfies the entropy contract for every remaining-bytes state; table theorem for ASCII_CHARS; S5: both real sources on a grid (Arbitrary side must equal the port exactly; exhaustive for inputs of length <= 1 quick / <= 2 thorough).", "§6 C18", "Lean theorem on the exact Unstructured port + S5 correspondence"),
 })
+CLAIMS.update({
+ "C07": ("proof", "Proved: C07.keys_order_irrelevant (the only iteration over an unordered structure is followed by a sort, so any hash-iteration order gives the same key list) and the model's generation being a function of (configuration, entropy) by construction; S3 shows fuzzer-bytes generation equals that model byte for byte. The runtime residue a model cannot exhibit (OS randomness, clock, addresses, thread identity in the compiled Rust) is observed: identical outputs across freshly spawned processes (new hash seeds / ASLR), a case alone vs inside a long-lived process, and 16 threads generating concurrently vs sequentially. Partial in the sense of DESIGN §6 C07.", "§6 C07", "Lean theorem (order independence) + S3 exact correspondence + multi-process / multi-thread comparison"),
+ "C12": ("proof", "C12.all_reachable: for every protocol and every opcode of the translated table a witness path of guarded steps from the empty state after which the opcode's guard holds (decide; re-proved whenever /repo's tables change); S1 ties the guards to the code. The 'for some seed with default settings' half is an existential over a concrete PRNG and is decided on the implementation: cached witness seeds re-run first, then seeds 0..1999 (quick) / 0..49999 (thorough), framed and unframed for P>=4.", "§6 C12", "Lean reachability theorem over translated tables + S1 + witness-seed search on the implementation"),
+})
 PENDING = {
  "C07": "check under construction in this session (purity/determinism; model + multi-process comparison)",
  "C08": "check under construction in this session (generator reuse; history model + S6)",
